@@ -59,156 +59,137 @@ Lemma writer_alive_app : forall s e,
   || match e with EvDropWriter => true | _ => false end.
 Proof. intros. rewrite existsb_app. simpl. rewrite orb_false_r. reflexivity. Qed.
 
-Ltac early_absurd :=
-  match goal with
-  | H : early ?g, E : ?g = _ |- _ => rewrite E in H; destruct H; discriminate
-  | H : late ?g, E : ?g = _ |- _ => rewrite E in H; destruct H as [H|[H|H]]; discriminate
-  end.
+Ltac prep H :=
+  destruct H;
+  unfold prod_advance, nseen, attempts, early, late in *; simpl in *;
+  repeat match goal with
+         | E : pc _ = _ |- _ => rewrite E in *
+         | E : q _ = _ |- _ => rewrite E in *
+         | E : guard _ = _ |- _ => rewrite E in *
+         end;
+  unfold prod_advance, nseen, attempts, early, late in *; simpl in *;
+  rewrite ?attempts_of_app, ?app_length, ?nsd_app in *; simpl in *.
 
-Lemma ginv_step : forall c faults s l s', Conserv s -> GInv c s -> Step c faults s l s' -> GInv c s'.
-Proof.
-  intros c faults s l s' CV I H.
-  destruct I as [Iearly Inomark Ilate Isd Iterm Imark Ijoin Irel Idone Iwalive].
-  unfold nseen, attempts in *.
-  destruct H.
-  - (* recv line *)
-    rewrite H, H0 in *. simpl in *.
-    constructor; unfold nseen, attempts; simpl; auto; try tauto; try (intros; discriminate).
-    + intros n M. specialize (Imark n M). simpl in Imark. lia.
-    + intros _. apply Iwalive. tauto.
-  - (* recv shutdown *)
-    rewrite H, H0 in *. simpl in *.
-    constructor; unfold nseen, attempts; simpl; auto; try tauto; try lia; try (intros; discriminate).
-    + intros E. destruct (Iearly E) as [M _]. apply Inomark in M. discriminate.
-    + intros n M. specialize (Imark n M). simpl in Imark. lia.
-    + intros _. apply Iwalive. tauto.
-  - (* recv disconnected *)
-    rewrite H, H0 in *. simpl in *.
-    constructor; unfold nseen, attempts; simpl; auto; try tauto; try (intros; discriminate).
-    + intros E. exfalso. eapply senders_pos_early; eauto.
-    + intros n M. specialize (Imark n M). simpl in Imark. lia.
-    + intros _. apply Iwalive. tauto.
-  - (* write *)
-    rewrite H in *. simpl in *.
-    constructor; unfold nseen, attempts; simpl; rewrite ?attempts_of_app, ?app_length; simpl; auto; try tauto.
-    + intros E. destruct (Iearly E). split; auto. destruct (faults (ncalls s)); exact I.
-    + intros N. exfalso. apply N. destruct (faults (ncalls s)); exact I.
-    + intros n M. specialize (Imark n M). simpl in Imark. destruct (faults (ncalls s)); simpl; lia.
-    + destruct (faults (ncalls s)); intros; discriminate.
-    + destruct (faults (ncalls s)); simpl; tauto.
-    + intros _. unfold writer_alive. simpl. rewrite writer_alive_app, orb_false_r. apply Iwalive. tauto.
-  - (* try line *)
-    rewrite H, H0 in *. simpl in *.
-    constructor; unfold nseen, attempts; simpl; auto; try tauto; try (intros; discriminate).
-    + intros n M. specialize (Imark n M). simpl in Imark. lia.
-    + intros _. apply Iwalive. tauto.
-  - (* try shutdown *)
-    rewrite H, H0 in *. simpl in *.
-    constructor; unfold nseen, attempts; simpl; auto; try tauto; try lia; try (intros; discriminate).
-    + intros E. destruct (Iearly E) as [M _]. apply Inomark in M. discriminate.
-    + intros n M. specialize (Imark n M). simpl in Imark. lia.
-    + intros _. apply Iwalive. tauto.
-  - (* try none *)
-    rewrite H, H0 in *. simpl in *.
-    constructor; unfold nseen, attempts; simpl; auto; try tauto; try (intros; discriminate).
-    + intros E. destruct (Iearly E). split; auto.
+Ltac unpack GI :=
+  let G := fresh "G" in
+  pose proof GI as G;
+  destruct G as [Iearly Inomark Ilate Isd Iterm Imark Ijoin Irel Idone Iwalive].
+
+Ltac dis := try solve [ intuition (try discriminate; try congruence; try lia) ].
+
+Section Step.
+  Variable c : config.
+  Variable faults : nat -> bool.
+  Variables s s' : state.
+  Variable l : label.
+  Hypothesis CV : Conserv s.
+  Hypothesis GI : GInv c s.
+  Hypothesis ST : Step c faults s l s'.
+
+
+  Lemma flush_next_normal : forall st b, normal_pc (WFlush st) -> flush_next c st b = WRecv.
+  Proof. intros st b N. destruct st; simpl in N; try (exfalso; exact N). reflexivity. Qed.
+
+  Lemma st_early : early (guard s') -> mark s' = None /\ normal_pc (pc s').
+  Proof.
+    unpack GI.
+    prep ST; dis.
+    - (* recv disconnected *) intros E. exfalso. eapply senders_pos_early; eauto.
+    - (* write *) intros E. destruct (Iearly E). split; auto. destruct (faults (ncalls s)); exact I.
+    - (* try none *) intros E. destruct (Iearly E). split; auto.
       destruct (Nat.eqb_spec (senders s) 0) as [Z|Z]; [exfalso; eapply senders_pos_early; eauto | exact I].
-    + intros n M. specialize (Imark n M). simpl in Imark. lia.
-    + intros _. apply Iwalive. tauto.
-  - (* flush *)
-    rewrite H in *. simpl in *.
-    assert (NX: forall b, flush_next c st b <> WRendezvous /\ flush_next c st b <> WExit).
-    { intros b. unfold flush_next. destruct (terminal st), b, (var c); split; discriminate. }
-    constructor; unfold nseen, attempts; simpl; rewrite ?attempts_of_app, ?app_length; simpl; auto; try tauto.
-    + intros E. destruct (Iearly E) as [M N]. split; auto. destruct st; simpl in N; try tauto.
-      unfold flush_next. simpl. exact I.
-    + intros N. apply Iterm. intros NP. apply N. destruct st; simpl in NP; try tauto. unfold flush_next. simpl. exact I.
-    + intros n M. specialize (Imark n M). simpl in Imark.
+    - (* flush *) intros E. destruct (Iearly E) as [M N]. split; auto. rewrite flush_next_normal; auto. exact I.
+  Qed.
+
+  Lemma st_nomark : mark s' = None -> nsd (q s') = 0.
+  Proof.
+    unpack GI.
+    prep ST; dis.
+  Qed.
+
+  Lemma st_late : late (guard s') -> mark s' <> None.
+  Proof.
+    unpack GI.
+    prep ST; dis.
+  Qed.
+
+  Lemma st_sd : nsd (q s') <= 1.
+  Proof.
+    unpack GI.
+    prep ST; dis.
+  Qed.
+
+  Lemma st_term : ~ normal_pc (pc s') -> nsd (q s') = 0.
+  Proof.
+    unpack GI.
+    prep ST; dis.
+    - (* write *) intros N. exfalso. apply N. destruct (faults (ncalls s)); exact I.
+    - (* flush *) intros N. apply Iterm. intros NP. apply N. rewrite flush_next_normal; auto. exact I.
+  Qed.
+
+  Lemma st_mark : forall n, mark s' = Some n ->
+      (nsd (q s') = 1 -> nseen s' + length (lines_before_sd (q s')) = n) /\
+      (nsd (q s') = 0 -> n <= nseen s').
+  Proof.
+    unpack GI.
+    prep ST; try (intros n M; specialize (Imark n M); simpl in Imark); dis.
+    - (* write *) destruct (faults (ncalls s)); simpl; lia.
+    - (* flush *)
       assert (length (inflight (flush_next c st (faults (ncalls s)))) = 0).
       { unfold flush_next. destruct (terminal st), (faults (ncalls s)), (var c); reflexivity. }
       lia.
-    + intros J. apply Ijoin in J. discriminate.
-    + intros R. exists (log s), (negb (faults (ncalls s))). split; auto.
-      intros V. unfold flush_next in R. rewrite V in R. destruct (terminal st), (faults (ncalls s)); simpl; auto; discriminate.
-    + intros D. exfalso. destruct (NX (faults (ncalls s))) as [A B].
-      destruct (flush_next c st (faults (ncalls s))); simpl in D; try tauto; congruence.
-    + intros _. unfold writer_alive. simpl. rewrite writer_alive_app, orb_false_r. apply Iwalive. tauto.
-  - (* release *)
-    rewrite H in *. simpl in *.
-    constructor; unfold nseen, attempts; simpl; rewrite ?attempts_of_app, ?app_length; simpl; auto; try tauto.
-    + intros E. destruct (Iearly E) as [_ N]. destruct N.
-    + intros n M. specialize (Imark n M). simpl in Imark. lia.
-    + intros J. apply Ijoin in J. discriminate.
-    + intros; discriminate.
-    + intros _. destruct (Irel eq_refl) as (lg & b & L & V). exists lg, b. split; auto.
-      rewrite L, <- app_assoc. reflexivity.
-  - (* exit *)
-    rewrite H, H0 in *. simpl in *.
-    constructor; unfold nseen, attempts; simpl; auto; try tauto; try (intros; discriminate).
-    + intros E. destruct E; discriminate.
-    + intros n M. specialize (Imark n M). simpl in Imark. lia.
-    + intros _. apply Idone. exact I.
-  - (* accept *)
-    unfold prod_advance. simpl in *.
-    constructor; unfold nseen, attempts; simpl; rewrite ?nsd_app; simpl; rewrite ?Nat.add_0_r; auto.
-    intros n M. specialize (Imark n M). split; intros N.
-    + rewrite lbs_app_sd by lia. tauto.
-    + tauto.
-  - (* drop *)
-    unfold prod_advance. simpl in *. constructor; auto.
-  - (* refuse *)
-    unfold prod_advance. simpl in *. constructor; auto.
-  - (* close *)
-    simpl in *. constructor; auto.
-  - (* guard begin *)
-    rewrite H in *. simpl in *.
-    constructor; unfold nseen, attempts; simpl; auto.
-    + intros _. apply Iearly. left; reflexivity.
-    + intros L. destruct L as [L|[L|L]]; discriminate.
-    + intros [J|J]; discriminate.
-  - (* guard send, receiver gone *)
-    rewrite H in *. simpl in *.
-    constructor; unfold nseen, attempts; simpl; auto.
-    + intros [E|E]; discriminate.
-    + intros L. destruct L as [L|[L|L]]; discriminate.
-    + intros [J|J]; discriminate.
-  - (* guard send *)
-    rewrite H in *. simpl in *.
-    destruct (Iearly (or_intror eq_refl)) as [M NP]. pose proof (Inomark M) as Z.
-    constructor; unfold nseen, attempts; simpl; rewrite ?nsd_app; simpl; auto; try lia.
-    + intros [E|E]; discriminate.
-    + intros; discriminate.
-    + intros; discriminate.
-    + intros N. exfalso. tauto.
-    + intros n Mn. inversion Mn; subst; clear Mn. split; [intros _|intros; lia].
+    - (* accept *) split; intros N.
+      + rewrite lbs_app_sd by lia. apply Imark. lia.
+      + apply Imark. lia.
+    - (* guard send *)
+      destruct (Iearly (or_intror eq_refl)) as [M0 _]. pose proof (Inomark M0) as Z.
+      intros n M. inversion M; subst; clear M. split; [intros _|intros; lia].
       rewrite lbs_app_nosd by auto. simpl. rewrite app_nil_r.
-      unfold Conserv, pending, attempts in CV. rewrite CV, !app_length, map_length. lia.
-    + intros [J|J]; discriminate.
-  - (* timeout 100 *)
-    rewrite H in *. simpl in *.
-    constructor; unfold nseen, attempts; simpl; auto.
-    + intros [E|E]; discriminate.
-    + intros L. destruct L as [L|[L|L]]; discriminate.
-    + intros [J|J]; discriminate.
-  - (* rendezvous *)
-    rewrite H, H0 in *. simpl in *.
-    constructor; unfold nseen, attempts; simpl; auto; try tauto; try (intros; discriminate).
-    + intros [E|E]; discriminate.
-    + intros _. apply Ilate. left; reflexivity.
-    + intros n M. specialize (Imark n M). simpl in Imark. lia.
-    + intros _. apply Idone. exact I.
-  - (* timeout 1000 *)
-    rewrite H in *. simpl in *.
-    constructor; unfold nseen, attempts; simpl; auto.
-    + intros [E|E]; discriminate.
-    + intros L. destruct L as [L|[L|L]]; discriminate.
-    + intros [J|J]; discriminate.
-  - (* join *)
-    rewrite H, H0 in *. simpl in *.
-    constructor; unfold nseen, attempts; simpl; auto; try tauto; try (intros; discriminate).
-    + intros [E|E]; discriminate.
-    + intros _. apply Ilate. right; left; reflexivity.
-Qed.
+      unfold Conserv, accepted, pending, attempts in CV. unfold accepted. rewrite CV, !app_length, map_length. lia.
+  Qed.
+
+  Lemma st_join : guard s' = GJoin \/ guard s' = GDone true -> pc s' = WExit.
+  Proof.
+    unpack GI.
+    prep ST; dis.
+  Qed.
+
+  Lemma st_rel : pc s' = WRelease ->
+    exists lg b, log s' = lg ++ [EvFlush b] /\ (var c = FlushErrLosesState -> b = true).
+  Proof.
+    unpack GI.
+    prep ST; dis.
+    - (* write *) destruct (faults (ncalls s)); discriminate.
+    - (* flush *) intros R. exists (log s), (negb (faults (ncalls s))). split; auto.
+      intros V. unfold flush_next in R. rewrite V in R. destruct (terminal st), (faults (ncalls s)); simpl; auto; discriminate.
+  Qed.
+
+  Lemma st_done : done_pc (pc s') ->
+    exists lg b, log s' = lg ++ [EvFlush b; EvDropWriter] /\ (var c = FlushErrLosesState -> b = true).
+  Proof.
+    unpack GI.
+    prep ST; dis.
+    - (* write *) destruct (faults (ncalls s)); simpl; tauto.
+    - (* flush *) intros D. exfalso. unfold flush_next in D.
+      destruct (terminal st), (faults (ncalls s)), (var c); simpl in D; tauto.
+    - (* release *) intros _. destruct (Irel eq_refl) as (lg & b & L & V). exists lg, b. split; auto.
+      rewrite L, <- app_assoc. reflexivity.
+  Qed.
+
+  Lemma st_walive : ~ done_pc (pc s') -> writer_alive s' = true.
+  Proof.
+    unpack GI.
+    unfold writer_alive in *.
+    prep ST; rewrite ?writer_alive_app, ?orb_false_r; dis.
+  Qed.
+
+  Lemma ginv_step : GInv c s'.
+  Proof.
+    constructor.
+    - exact st_early. - exact st_nomark. - exact st_late. - exact st_sd. - exact st_term.
+    - exact st_mark. - exact st_join. - exact st_rel. - exact st_done. - exact st_walive.
+  Qed.
+End Step.
 
 Theorem guard_invariant : forall c faults s, reachable c faults s -> GInv c s.
 Proof.
